@@ -92,7 +92,7 @@ CHECKS = {
                 "system: in every observation of every history, winner/conflicting/in_conflict == the rule applied to the library's own revision sets and to the trees parsed from the raw block files. "
                 "non-trivial (unit) = >=2 live leaves, a marker, an index >=10 or a dangling subtree; (system) = >=2 live leaves seen or an index >= 10." + DISTINCT,
         "assumptions": ASSUME_COMMON,
-        "jobs": [mode("trees", "c05unit", (40000, 2400000)), mode("order", "c19unit", (64, 3200)), engine("conflict", "conflict", "C05", (640, 30000)), engine("long", "long", "C05", (64, 3200))],
+        "jobs": [mode("trees", "c05unit", (40000, 1200000)), mode("order", "c19unit", (64, 3200)), engine("conflict", "conflict", "C05", (640, 30000)), engine("long", "long", "C05", (64, 3200))],
     },
     "C06": {
         "level": "exploration", "floor": 50,
